@@ -35,6 +35,9 @@ STRENGTH = {
  "C13-e": "free-form histories with slot reuse and stale wakes under the Starve epilogue",
  "C17-e": "iterators that are exact for the first 4/5 and filtered afterwards; collections collected from 50 futures",
  "C14-e": "(in-process hang watchdog, as for C12-b)",
+ "C06-f": "iterators that panic part-way through a collecting constructor",
+ "C07-f": "join inputs that panic in `poll` (`PanicOnce`) in the C07 scenarios",
+ "C08-f": "static Unpin matrix of the five adapters over a `!Unpin` upstream",
 }
 for d in sorted(glob.glob("/verif/seeded/C*")):
     mp = os.path.join(d, "meta.json")
